@@ -50,6 +50,15 @@ var checks = map[string][]HarnessSpec{
 		{Name: "verifC12Names", Pkg: "./dns", Labels: []string{"decoded", "rejected"}, Quick: TierOpts{LoopLimit: 300}, Thorough: TierOpts{LoopLimit: 300}},
 		{Name: "verifC12RData", Pkg: "./dns", Labels: []string{"decoded", "rejected"}, Quick: TierOpts{LoopLimit: 300}, Thorough: TierOpts{LoopLimit: 300}},
 	},
+	"C13": {
+		{Name: "verifC13RoundTrip", Pkg: "./dns", Labels: []string{"roundtrip"}},
+		{Name: "verifC13Compressed", Pkg: "./dns", Labels: []string{"compressed"}},
+		{Name: "verifC13Padding", Pkg: "./dns", Labels: []string{"padded"}},
+		{Name: "verifC13ResponseCode", Pkg: "./dns", Labels: []string{"rcode"}},
+	},
+	"C15": {
+		{Name: "verifC15Targets", Pkg: ".", Labels: []string{"checked"}},
+	},
 	"SMOKE": {
 		{Name: "verifSmoke", Pkg: "."},
 	},
